@@ -327,9 +327,9 @@ def numLoop : NState → NumAcc → Nat → List Nat → NumRes
           .err .LeadingZeroInNumber (endPos - 2) (endPos - 1)
         else numLoop (.intDigits false) { acc with digits := acc.digits ++ [x] } endPos t
       else if !u && x == 95 then numLoop (.intDigits true) acc (pos + 1) t
+      else if u then .err .MissingDigitAfterUnderscore (pos - 1) pos
       else if x == 46 then numLoop .dot acc (pos + 1) t
       else if isExpChar x then numLoop .exp acc (pos + 1) t
-      else if u then .err .MissingDigitAfterUnderscore (pos - 1) pos
       else .done acc ⟨pos, x :: t⟩
     | .dot =>
       if isDigit x then
@@ -341,8 +341,8 @@ def numLoop : NState → NumAcc → Nat → List Nat → NumRes
         numLoop (.fracDigits false)
           { acc with digits := acc.digits ++ [x], implicitExp := acc.implicitExp - 1 } (pos + 1) t
       else if !u && x == 95 then numLoop (.fracDigits true) acc (pos + 1) t
-      else if isExpChar x then numLoop .exp acc (pos + 1) t
       else if u then .err .MissingDigitAfterUnderscore (pos - 1) pos
+      else if isExpChar x then numLoop .exp acc (pos + 1) t
       else .done acc ⟨pos, x :: t⟩
     | .exp =>
       if x == 43 then numLoop .expSign acc (pos + 1) t
